@@ -4,7 +4,7 @@ rotation functions, hex front ends, SipHash tail tables."""
 import decimal
 import math
 
-from engine import ir, dtable, match, cfg as cfgm
+from engine import ir, dtable, match, skel, cfg as cfgm
 from engine.ir import kids, strip_casts, const_int, ref_of
 from rules.c15 import flatten_switch
 
@@ -78,143 +78,154 @@ def multiple_of(delta, eq):
     return all(Fraction(delta.get(s, 0)) == k * eq.get(s, 0) for s in set(delta) | set(eq))
 
 
-def check_process(ck, tu, name, info):
-    fn = [f for f in tu.find(qname="tlx::%s::process" % name) if len(f.params) == 2][0]
-    size_p = fn.params[1]["did"]
-    loops = [s for s in kids(fn.body) if s["k"] == "WhileStmt"]
-    ck.require(len(loops) == 1, "%s: chunk loop not found" % fn.loc)
-    # block size = sizeof(buf_)
-    env0 = {}
-    for v in fn.nodes():
-        if v["k"] == "VarDecl" and v["name"] == "block_size" and kids(v):
-            bs = const_int(kids(v)[0])
-            if bs != info["block"]:
-                ck.violation("PROCESS-CONSERVE", fn.qname, "block-size", "block_size is %s, the %s block is %d bytes" % (bs, name, info["block"]), fn.nloc(v))
-                return
-            szof = [y for y in ir.walk(kids(v)[0]) if y["k"] == "UnaryExprOrTypeTraitExpr"]
-            if not szof:
-                ck.violation("PROCESS-CONSERVE", fn.qname, "block-size-literal", "block_size is not sizeof(buf_)", fn.nloc(v))
-                return
-            env0[v["did"]] = {("B",): 1}
-    B = {("B",): 1}
-    paths = []
+IN_BASE, STATE_BASE, OUT_BASE = 100000, 50000, 200000
 
-    def walk_stmt(s, env, eqs, facts):
-        """symbolic straight-line execution of one loop iteration; returns list of (env, eqs, facts)"""
-        k = s["k"]
-        if k == "CompoundStmt":
-            states = [(env, eqs, facts)]
-            for c in kids(s):
-                nxt = []
-                for (e1, q1, f1) in states:
-                    nxt += walk_stmt(c, e1, q1, f1)
-                states = nxt
-            return states
-        if k == "IfStmt":
-            c, t, e = kids(s)
-            out = []
-            conj = []
 
-            def flat(n):
-                b = match.binop(n, ("&&",))
-                if b and strip_casts(n)["k"] == "BinaryOperator":
-                    flat(b[1]); flat(b[2])
-                else:
-                    conj.append(n)
-            flat(c)
-            eq_true = list(eqs)
-            facts_true = list(facts)
-            for cj in conj:
-                b = match.binop(cj, ("==", ">=", "<", ">", "<="))
-                if b:
-                    l, r = lin(b[1], env), lin(b[2], env)
-                    if b[0] == "==" and l is not None and r is not None:
-                        eq_true.append(ladd(l, r, -1))
-                        facts_true.append(("eq", dtable.describe(cj)))
-                    else:
-                        facts_true.append(("cond", dtable.describe(cj)))
-            out += walk_stmt(t, dict(env), eq_true, facts_true)
-            if e is not None:
-                out += walk_stmt(e, dict(env), list(eqs), facts + [("else", dtable.describe(c))])
+class DigestModel:
+    """process()/finalize() of one digest evaluated on a model: sizes and positions are small concrete integers, the
+    bytes are labels (("B", i): byte i of the buffer before the call, ("I", i): byte i of the input, ("S", w): state word w).
+    The compress calls are observed, not executed: each consumes the block it is given."""
+
+    def __init__(self, tu, fn, info, curlen0, size0=0, length0=0):
+        self.tu, self.fn, self.info = tu, fn, info
+        self.B = info["block"]
+        self.size0 = size0
+        self.blocks = []         # [(kind, [labels])]
+        self.events = []
+        self.sk = None
+        self.curlen0, self.length0 = curlen0, length0
+
+    def mem_default(self, a):
+        if 0 <= a < self.B:
+            return ("B", a)
+        if IN_BASE <= a < IN_BASE + self.size0:
+            return ("I", a - IN_BASE)
+        if STATE_BASE <= a < STATE_BASE + self.info["words"]:
+            return ("S", a - STATE_BASE)
+        return ("OOB", a)
+
+    def event(self, e, sk):
+        if "callee" not in e:
+            return NotImplemented
+        nm = e["callee"]["name"]
+        args = [a for a in kids(e) if a is not None and a["k"] != "DefaultArg"]
+        if nm.endswith("_compress") and len(args) == 2:
+            p = sk.ev(args[1])
+            if not isinstance(p, int):
+                raise dtable.Undecidable("%s: block handed to %s not understood" % (self.fn.loc, nm))
+            self.blocks.append(("direct" if p >= IN_BASE else "buffer", [sk.load(("mem", p + i)) for i in range(self.B)], p))
+            self.events.append(("compress", len(self.blocks)))
+            return None
+        if nm in ("copy", "copy_n", "memcpy", "fill", "fill_n", "memset") and len(args) == 3:
+            v = [sk.ev(a) for a in args]
+            if nm == "copy":
+                first, last, dst = v
+                n, src, val = (last - first if isinstance(first, int) and isinstance(last, int) else None), first, None
+            elif nm == "copy_n":
+                src, n, dst = v
+                val = None
+            elif nm == "memcpy":
+                dst, src, n = v
+                val = None
+            elif nm == "fill":
+                dst, last, val = v
+                n, src = (last - dst if isinstance(dst, int) and isinstance(last, int) else None), None
+            elif nm == "fill_n":
+                dst, n, val = v
+                src = None
             else:
-                out.append((dict(env), list(eqs), facts + [("else", dtable.describe(c))]))
-            return out
-        if k == "DeclStmt":
-            env = dict(env)
-            for v in kids(s):
-                if kids(v):
-                    m = match.call_named(kids(v)[0], ("min",))
-                    if m is not None and "callee" in strip_casts(kids(v)[0]):
-                        env[v["did"]] = {("n",): 1}
-                        facts = facts + [("min", [dtable.describe(a) for a in kids(m)], [lin(a, env) for a in kids(m)])]
-                    else:
-                        l = lin(kids(v)[0], env)
-                        if l is not None:
-                            env[v["did"]] = l
-            return [(env, eqs, facts)]
-        if k in ("ForStmt",):
-            return [(env, eqs, facts + [("copy-loop", s)])]
-        b = match.binop(s, ("+=", "-=", "="))
-        if b:
-            tgt = strip_casts(b[1])
-            key = match.this_field(tgt) or (ref_of(tgt) if tgt["k"] == "DeclRefExpr" else None)
-            r = lin(b[2], env)
-            if key is not None and r is not None:
-                env = dict(env)
-                cur = env.get(key, {("f", key): 1} if isinstance(key, str) else {("v", key, ir.ref_name(tgt)): 1})
-                env[key] = r if b[0] == "=" else ladd(cur, r, 1 if b[0] == "+=" else -1)
-                return [(env, eqs, facts)]
-        if "callee" in s:
-            return [(env, eqs, facts + [("call", s)])]
-        return [(env, eqs, facts)]
-    sizesym = {("v", size_p, "size"): 1}
-    start = dict(env0)
-    results = walk_stmt(kids(loops[0])[1], start, [], [])
-    ck.require(len(results) == 3, "%s: expected 3 paths through the chunk loop, found %d" % (fn.loc, len(results)))
-    bad = False
-    for env, eqs, facts in results:
-        dlen = ladd(env.get("length_", {("f", "length_"): 1}), {("f", "length_"): 1}, -1)
-        dcur = ladd(env.get("curlen_", {("f", "curlen_"): 1}), {("f", "curlen_"): 1}, -1)
-        dsize = ladd(env.get(size_p, sizesym), sizesym, -1)
-        delta = ladd(ladd(dlen, dcur, 8), dsize, 8)
-        okc = not delta or any(multiple_of(delta, q) for q in eqs)
-        compress = [f for f in facts if f[0] == "call" and f[1]["callee"]["name"].endswith("_compress")]
-        direct = [c for c in compress if ref_of(kids(c[1])[1]) is not None and ir.ref_name(kids(c[1])[1]) == "in"]
-        desc = "direct" if direct else ("flush" if compress else "buffer")
-        if not okc:
-            ck.violation("PROCESS-CONSERVE", fn.qname, name + ":" + desc,
-                         "on the %s path the message length is not conserved: d(length_) + 8 d(curlen_) + 8 d(size) = %s (must be 0%s): bytes buffered by earlier "
-                         "calls are lost from / counted twice in the length that is hashed into the padding"
-                         % (desc, fmt_lin(delta), (" given " + " and ".join(f[1] for f in facts if f[0] == "eq")) if eqs else ""), fn.nloc(loops[0]))
-            bad = True
-        if direct:
-            guards = [f[1] for f in facts if f[0] in ("eq", "cond")]
-            if not any("curlen_ == 0" in g_.replace("(", "").replace(")", "") for g_ in guards):
-                ck.violation("DIRECT-ONLY-EMPTY", fn.qname, name, "input is compressed directly although bytes may still be buffered (curlen_ == 0 not required)", fn.nloc(direct[0][1]))
-                bad = True
-            if not any("size >= block_size" in g_.replace("(", "").replace(")", "") for g_ in guards):
-                ck.violation("DIRECT-ONLY-EMPTY", fn.qname, name + ":size", "direct compression without size >= block_size", fn.nloc(direct[0][1]))
-                bad = True
-        if compress and not direct:
-            if env.get("curlen_") != {}:
-                ck.violation("FLUSH-RESET", fn.qname, name, "after compressing the full buffer curlen_ is %s instead of 0" % fmt_lin(env.get("curlen_", {("f", "curlen_"): 1})), fn.nloc(compress[0][1]))
-                bad = True
-        mins = [f for f in facts if f[0] == "min"]
-        if not direct:
-            okm = False
-            for m in mins:
-                want = [sizesym, ladd(B, {("f", "curlen_"): 1}, -1)]
-                if sorted(map(fmt_lin, m[2])) == sorted(map(fmt_lin, want)):
-                    okm = True
-            if not okm:
-                ck.violation("COPY-BOUND", fn.qname, name + ":" + desc, "the number of bytes copied into the buffer is not min(size, block_size - curlen_)", fn.nloc(loops[0]))
-                bad = True
-    if not bad:
-        ck.ok("PROCESS-CONSERVE", name + "::process", "3 paths: d(length_) + 8 d(curlen_) + 8 d(size) == 0 (with curlen_ == block_size substituted on the flush path)",
-              sample=dict(rule="PROCESS-CONSERVE", digest=name, paths=3))
-        ck.ok("DIRECT-ONLY-EMPTY", name + "::process", "direct compression only when curlen_ == 0 and size >= block_size")
-        ck.ok("COPY-BOUND", name + "::process", "n = min(size, block_size - curlen_)")
-        ck.ok("FLUSH-RESET", name + "::process", "full buffer compressed, curlen_ = 0")
+                dst, val, n = v
+                src = None
+            if not isinstance(n, int) or not isinstance(dst, int) or n < 0 or n > 4 * self.B or (src is None and val is None):
+                raise dtable.Undecidable("%s: %s() with arguments that are not understood" % (self.fn.loc, nm))
+            vals = [sk.load(("mem", src + i)) for i in range(n)] if src is not None else [val] * n
+            for i in range(n):
+                sk.store(("mem", dst + i), vals[i])
+            return dst + n
+        if nm.startswith("store") and len(args) == 2 and self.tu.by_did.get(e["callee"]["did"]) is not None:
+            so = store_order(self.tu, e)
+            val, dst = sk.ev(args[0]), sk.ev(args[1])
+            if so is None or so[0] == "mixed" or not isinstance(dst, int):
+                raise dtable.Undecidable("%s: %s() not understood" % (self.fn.loc, nm))
+            order, n = so
+            for j in range(n):
+                k = (n - 1 - j) if order == "big" else j          # significance of the byte written at dst + j
+                if isinstance(val, int):
+                    byte = (val >> (8 * k)) & 255
+                else:
+                    byte = ("byte", val, k)
+                sk.store(("mem", dst + j), byte)
+            self.events.append(("store", dst, n))
+            return None
+        return NotImplemented
+
+    def run(self, params):
+        env = {("field", "curlen_"): self.curlen0, ("field", "length_"): self.length0, ("field", "buf_"): 0, ("field", "state_"): STATE_BASE}
+        env.update(params)
+        self.sk = skel.Skel(self.fn, env, None, self.event, mem_default=self.mem_default, max_iter=8 * self.B)
+        self.diverged = None
+        try:
+            self.sk.run(kids(self.fn.body))
+        except skel.Return:
+            pass
+        except skel.Diverges as d:
+            self.diverged = d.loop
+        except skel.TooLong as d:
+            # 8 * block rounds for at most 3 * block bytes: a loop that consumes a byte per round (or per two) has long ended
+            self.diverged = d.loop
+        return self.sk
+
+
+def check_process(ck, tu, name, info):
+    """PROCESS-STREAM / PROCESS-CONSERVE: for buffer fills {0, 1, B/2, B-1} and input sizes {0, 1, B-1, B, B+1, 2B, 2B+5, 3B-1}
+    the blocks handed to the compression function are, in order, the bytes buffered before followed by the input, cut
+    into blocks; what is left is in buf_[0, curlen_); length_ grows by 8 * block per compressed block; nothing is written
+    outside buf_."""
+    fn = [f for f in tu.find(qname="tlx::%s::process" % name) if len(f.params) == 2][0]
+    B = info["block"]
+    bad = None
+    ncases = 0
+    for curlen0 in (0, 1, B // 2, B - 1):
+        for size0 in (0, 1, B - 1, B, B + 1, 2 * B, 2 * B + 5, 3 * B - 1):
+            m = DigestModel(tu, fn, info, curlen0, size0, length0=8 * B * 7)
+            sk = m.run({fn.params[0]["did"]: IN_BASE, fn.params[1]["did"]: size0})
+            ncases += 1
+            want = [("B", i) for i in range(curlen0)] + [("I", i) for i in range(size0)]
+            k = len(want) // B
+            got = [x for _, blk, _ in m.blocks for x in blk]
+            cur = sk.env.get(("field", "curlen_"))
+            ln = sk.env.get(("field", "length_"))
+            oob = [key[1] for key in sk.env if isinstance(key, tuple) and key[0] == "mem" and not (0 <= key[1] < B)]
+            where = "buffer fill %d, input of %d bytes" % (curlen0, size0)
+            if m.diverged is not None and bad is None:
+                bad = ("PROCESS-STREAM", "for %s the chunk loop at line %s does not end (same state again, or more than 8 x block rounds): process() does not return"
+                       % (where, m.diverged.get("l")))
+            elif oob and bad is None:
+                bad = ("PROCESS-STREAM", "write outside buf_ (offset %d) for %s" % (min(oob), where))
+            elif got != want[:k * B] and bad is None:
+                i = next((j for j in range(min(len(got), k * B)) if got[j] != want[j]), min(len(got), k * B))
+                bad = ("PROCESS-STREAM", "for %s the compression function receives %d blocks; byte %d of that stream is %s, it must be %s "
+                       "(buffered bytes first, then the input, in order, whole blocks only)"
+                       % (where, len(m.blocks), i, lab(got[i]) if i < len(got) else "missing", lab(want[i]) if i < k * B else "nothing"))
+            elif cur != len(want) - k * B and bad is None:
+                bad = ("PROCESS-STREAM", "for %s curlen_ is %s afterwards, %d bytes remain unhashed" % (where, cur, len(want) - k * B))
+            elif [sk.load(("mem", i)) for i in range(len(want) - k * B)] != want[k * B:] and bad is None:
+                bad = ("PROCESS-STREAM", "for %s the bytes left in buf_ are not the unhashed tail of the input" % where)
+            elif ln != 8 * B * 7 + 8 * B * k and bad is None:
+                bad = ("PROCESS-CONSERVE", "for %s length_ grows by %s bits, %d blocks of %d bytes were hashed: the length hashed into the padding is wrong"
+                       % (where, (ln - 8 * B * 7) if isinstance(ln, int) else "?", k, B))
+    if bad:
+        ck.violation(bad[0], fn.qname, name + ":process", bad[1], fn.loc)
+    else:
+        ck.ok("PROCESS-STREAM", name + "::process", "%d (fill, size) cases: compressed blocks == (buffered ++ input) cut into blocks, rest in buf_[0, curlen_)" % ncases,
+              sample=dict(rule="PROCESS-STREAM", digest=name, cases=ncases))
+        ck.ok("PROCESS-CONSERVE", name + "::process", "length_ grows by 8 * %d per compressed block in all %d cases" % (B, ncases))
+
+
+def lab(x):
+    if isinstance(x, tuple):
+        return {"B": "buffered byte %s", "I": "input byte %s", "OOB": "memory outside buffer and input (%s)"}.get(x[0], str(x[0]) + " %s") % (x[1],)
+    return repr(x)
 
 
 def fmt_lin(l):
@@ -254,94 +265,57 @@ def store_order(tu, call):
 
 
 def check_finalize(ck, tu, name, info):
+    """FINAL-THRESHOLDS: finalize() evaluated for every buffer fill 0 .. B-1: the blocks compressed are exactly
+    buffered bytes ++ 0x80 ++ zeros ++ bit length (L bytes, the digest's byte order), one block if it fits and two otherwise;
+    the digest is the state words in the digest's byte order, written after the last compression."""
     fn = tu.one(qname="tlx::%s::finalize" % name)
     B, L = info["block"], info["L"]
-    g = cfgm.CFG(fn)
-    stmts = kids(fn.body)
-    bad = []
-    # 1. length_ += curlen_ * 8 first
-    first = stmts[0]
-    b = match.binop(first, ("+=",))
-    l = lin(b[2], {}) if b else None
-    if not (b and match.this_field(b[1]) == "length_" and l == {("f", "curlen_"): 8}):
-        bad.append(("length-first", "finalize must first add the buffered bytes to the length (length_ += curlen_ * 8)", first))
-    # 2. 0x80 appended at buf_[curlen_++]
-    pad = [x for x in fn.nodes() if match.binop(x, ("=",)) and const_int(match.binop(x, ("=",))[2]) == 0x80]
-    okp = False
-    for x in pad:
-        p = match.index_parts(match.binop(x, ("=",))[1])
-        u = match.unop(p[1], ("++",)) if p else None
-        if p and match.this_field(p[0]) == "buf_" and u and u[2] and match.this_field(u[1]) == "curlen_":
-            okp = True
-    if not okp:
-        bad.append(("pad-byte", "the padding byte 0x80 is not appended at buf_[curlen_++]", stmts[1] if len(stmts) > 1 else first))
-    # 3. thresholds
-    ifs = [s for s in stmts if s["k"] == "IfStmt"]
-    whiles = [s for s in stmts if s["k"] == "WhileStmt"]
-    T = F1 = None
-    if ifs:
-        c = match.binop(kids(ifs[0])[0], (">", ">="))
-        if c and match.this_field(c[1]) == "curlen_":
-            T = const_int(c[2]) + (0 if c[0] == ">" else -1)
-        inner = [x for x in ir.walk(kids(ifs[0])[1]) if x["k"] == "WhileStmt"]
-        if inner:
-            cc = match.binop(kids(inner[0])[0], ("<",))
-            F1 = const_int(cc[2]) if cc and match.this_field(cc[1]) == "curlen_" else None
-        flush = [x for x in ir.walk(kids(ifs[0])[1]) if "callee" in x and x["callee"]["name"].endswith("_compress")]
-        reset = [x for x in ir.walk(kids(ifs[0])[1]) if match.binop(x, ("=",)) and match.this_field(match.binop(x, ("=",))[1]) == "curlen_" and const_int(match.binop(x, ("=",))[2]) == 0]
-        if not flush or not reset:
-            bad.append(("extra-block", "the extra padding block is not compressed and the buffer restarted", ifs[0]))
-    if T != B - L:
-        bad.append(("threshold", "an extra block is used when curlen_ > %s; the %d-bit length field needs it exactly when curlen_ > %d" % (T, 8 * L, B - L), ifs[0] if ifs else first))
-    if F1 != B:
-        bad.append(("fill-block", "the extra block is zero-filled up to %s instead of the block size %d" % (F1, B), ifs[0] if ifs else first))
-    F2 = None
-    if whiles:
-        cc = match.binop(kids(whiles[-1])[0], ("<",))
-        F2 = const_int(cc[2]) if cc and match.this_field(cc[1]) == "curlen_" else None
-    if F2 != B - 8:
-        bad.append(("fill-final", "the final block is zero-filled up to %s, the 64-bit length is stored at %d" % (F2, B - 8), whiles[-1] if whiles else first))
-    # 4. length stored at block-8 in the digest's byte order, then compressed
-    stores = [x for x in fn.nodes() if "callee" in x and x["callee"]["name"].startswith("store64") and match.this_field(kids(x)[0]) == "length_"]
-    if len(stores) != 1:
-        bad.append(("length-store", "the message length is not stored into the final block", first))
+    bad = None
+    LEN0 = 8 * B * 5
+    for curlen0 in range(B):
+        m = DigestModel(tu, fn, info, curlen0, 0, length0=LEN0)
+        sk = m.run({fn.params[0]["did"]: OUT_BASE})
+        bits = LEN0 + 8 * curlen0
+        lenbytes = [(bits >> (8 * (L - 1 - j))) & 255 for j in range(L)]
+        if info["endian"] == "little":
+            lenbytes = lenbytes[::-1]
+        nblk = 1 if curlen0 + 1 + L <= B else 2
+        want = [("B", i) for i in range(curlen0)] + [0x80]
+        want += [0] * (nblk * B - L - len(want)) + lenbytes
+        got = [x for _, blk, _ in m.blocks for x in blk]
+        where = "%d buffered bytes" % curlen0
+        if m.diverged is not None:
+            bad = bad or ("hang", "with %s a loop of finalize() does not end (same state again, or more than 8 x block rounds)" % where)
+            continue
+        oob = [key[1] for key in sk.env if isinstance(key, tuple) and key[0] == "mem" and not (0 <= key[1] < B or OUT_BASE <= key[1] < OUT_BASE + info["words"] * info["wbytes"])]
+        if oob:
+            bad = bad or ("overflow", "with %s finalize writes outside buf_ / the digest (offset %d)" % (where, min(oob)))
+            continue
+        if len(m.blocks) != nblk:
+            bad = bad or ("threshold", "with %s finalize compresses %d block(s); the 0x80 byte and the %d-byte length field need %d"
+                          % (where, len(m.blocks), L, nblk))
+            continue
+        if got != want:
+            i = next(j for j in range(len(want)) if got[j] != want[j])
+            what = "padding" if i < nblk * B - L else "length field"
+            bad = bad or (what.replace(" ", "-"), "with %s byte %d of the final block(s) is %s, the %s needs %s (length %d bits, %s-endian in the last %d bytes)"
+                          % (where, i, lab(got[i]), what, lab(want[i]), bits, info["endian"], L))
+            continue
+        out = [sk.load(("mem", OUT_BASE + i)) for i in range(info["words"] * info["wbytes"])]
+        wb = info["wbytes"]
+        wout = [("byte", ("S", w), (wb - 1 - j) if info["endian"] == "big" else j) for w in range(info["words"]) for j in range(wb)]
+        if out != wout:
+            i = next(j for j in range(len(wout)) if out[j] != wout[j])
+            bad = bad or ("output", "digest byte %d is %s; %s writes %d state words of %d bytes, %s-endian" % (i, lab(out[i]), name, info["words"], wb, info["endian"]))
+            continue
+        last_compress = max(i for i, ev in enumerate(m.events) if ev[0] == "compress")
+        if any(ev[0] == "store" and ev[1] >= OUT_BASE and i < last_compress for i, ev in enumerate(m.events)):
+            bad = bad or ("output-early", "the digest is written before the last block was compressed")
+    if bad:
+        ck.violation("FINAL-THRESHOLDS", fn.qname, name + ":" + bad[0], bad[1], fn.loc)
     else:
-        off = match.binop(kids(stores[0])[1], ("+",))
-        if not (off and match.this_field(off[1]) == "buf_" and const_int(off[2]) == B - 8):
-            bad.append(("length-offset", "the length is not stored at buf_ + %d" % (B - 8), stores[0]))
-        so = store_order(tu, stores[0])
-        if not so or so != (info["endian"], 8):
-            bad.append(("length-endian", "the length is stored %s-endian (%s uses %s-endian)" % (so[0] if so else "?", name, info["endian"]), stores[0]))
-        comp = [x for x in fn.nodes() if "callee" in x and x["callee"]["name"].endswith("_compress") and g.pos(x) and g.dominates(g.pos(stores[0]), g.pos(x))]
-        if not comp:
-            bad.append(("final-compress", "the final block is not compressed after the length was stored", stores[0]))
-    # 5. output words
-    outs = [x for x in fn.nodes() if "callee" in x and x["callee"]["name"].startswith("store") and not x["callee"]["name"].startswith("store64l") and
-            any(match.this_field(match.index_parts(a)[0]) == "state_" for a in kids(x)[:1] if match.index_parts(a))]
-    outs = [x for x in fn.nodes() if "callee" in x and x["callee"]["name"].startswith("store") and kids(x) and match.index_parts(kids(x)[0]) and
-            match.this_field(match.index_parts(kids(x)[0])[0]) == "state_"]
-    if len(outs) != 1:
-        bad.append(("output", "the state words are not written to the digest", first))
-    else:
-        so = store_order(tu, outs[0])
-        if not so or so != (info["endian"], info["wbytes"]):
-            bad.append(("output-endian", "state words are written as %s, %s needs %s-endian %d-byte words" % (so, name, info["endian"], info["wbytes"]), outs[0]))
-        lp = fn.parent(outs[0])
-        while lp is not None and lp["k"] != "ForStmt":
-            lp = fn.parent(lp)
-        nwords = const_int(match.binop(match.loop_parts(lp)[1], ("<", "!="))[2]) if lp is not None else None
-        stride = None
-        for y in ir.walk(kids(outs[0])[1]):
-            bb = match.binop(y, ("*",))
-            if bb and strip_casts(y)["k"] == "BinaryOperator":
-                stride = const_int(bb[1]) if const_int(bb[1]) is not None else const_int(bb[2])
-        if nwords != info["words"] or stride != info["wbytes"]:
-            bad.append(("output-words", "%s state words with stride %s are written, %s has %d words of %d bytes" % (nwords, stride, name, info["words"], info["wbytes"]), outs[0]))
-    for sig, msg, node in bad:
-        ck.violation("FINAL-THRESHOLDS", fn.qname, name + ":" + sig, msg, fn.nloc(node))
-    if not bad:
-        ck.ok("FINAL-THRESHOLDS", name + "::finalize", "length first, 0x80, extra block iff curlen_ > %d, fill to %d / %d, %s-endian length at %d, %d words of %d bytes"
-              % (B - L, B, B - 8, info["endian"], B - 8, info["words"], info["wbytes"]))
+        ck.ok("FINAL-THRESHOLDS", name + "::finalize", "all %d buffer fills: blocks == buffered ++ 0x80 ++ zeros ++ %d-byte %s-endian bit length (extra block iff fill > %d); "
+              "digest == %d state words of %d bytes, %s-endian, after the last compression" % (B, L, info["endian"], B - L - 1, info["words"], info["wbytes"], info["endian"]))
 
 
 def check_frontends(ck, tu, name, info):
@@ -582,78 +556,87 @@ def check_functions(ck, tus):
 
 
 # ---------------------------------------------------------------- siphash
+def bits_alg(op, a, b, e):
+    """values assembled from labelled bytes: ("bits", constant part, frozenset of (shift, label))"""
+    def norm(x):
+        if isinstance(x, bool):
+            return ("bits", int(x), frozenset())
+        if isinstance(x, int):
+            return ("bits", x, frozenset())
+        if isinstance(x, tuple) and x and x[0] == "bits":
+            return x
+        if isinstance(x, tuple):
+            return ("bits", 0, frozenset([(0, x)]))
+        return None
+    if op == "<<" and isinstance(b, int) and 0 <= b < 64:
+        x = norm(a)
+        if x is None:
+            return None
+        return ("bits", (x[1] << b) & (2 ** 64 - 1), frozenset((sh + b, l) for sh, l in x[2] if sh + b < 64))
+    if op == "|":
+        x, y = norm(a), norm(b)
+        if x is None or y is None:
+            return None
+        if {sh for sh, _ in x[2]} & {sh for sh, _ in y[2]}:
+            return None
+        return ("bits", x[1] | y[1], x[2] | y[2])
+    return None
+
+
 def check_siphash(ck):
+    """SIP-TAIL: for every message length 0..16 the final word is (len & 0xff) << 56 OR byte j of the tail << 8j (evaluated
+    on the function's integer skeleton with labelled message bytes, whatever the control structure); every shift of a
+    message byte is done in a 64-bit unsigned type."""
     tu = ir.extract("witness/C14_siphash.cpp")
-    tabs = {}
+    M_BASE = 1000
     for name in ("siphash_plain", "siphash_sse2"):
         fn = tu.one(qname="tlx::" + name)
         m, length = fn.params[1]["did"], fn.params[2]["did"]
-        sw = [x for x in fn.nodes() if x["k"] == "SwitchStmt"]
-        ck.require(len(sw) == 1, "%s: tail switch not found" % fn.loc)
-        # switch on len - blocks (len & 7)
-        flat = flatten_switch(kids(sw[0])[1])
-        table = {}
         bad = []
-        labels_open = []
-        order = []
-        for e in flat:
-            if e[0] == "case":
-                labels_open.append(e[1])
-                order.append(e[1])
-            elif e[0] == "stmt":
-                s = e[1]
-                if s["k"] == "BreakStmt":
-                    bad.append(("break", "the tail cases must fall through (case c adds byte c-1 and all lower ones)", s))
-                    labels_open = []
-                    continue
-                b = match.binop(s, ("|=",))
-                if b:
-                    rhs = strip_casts(b[2])
-                    sh = match.binop(b[2], ("<<",))
-                    shift = const_int(sh[2]) if sh else 0
-                    operand = sh[1] if sh else b[2]
-                    # the shift must be performed on a 64-bit unsigned value
-                    shl = strip_casts(b[2]) if sh else None
-                    if sh:
-                        inner = b[2]
-                        while inner["k"] in ("ImplicitCastExpr",) and strip_casts(inner) is not inner and False:
-                            pass
-                        shnode = [y for y in ir.walk(b[2]) if y["k"] == "BinaryOperator" and y.get("op") == "<<"][0]
-                        if shnode.get("ty") not in ("unsigned long", "unsigned long long"):
-                            bad.append(("shift-width:%d" % shift, "byte shifted by %d in type `%s`: the shift is done in (signed) int, bytes >= 0x80 sign-extend into the upper half" % (shift, shnode.get("ty")), s))
-                    idx = None
-                    for y in ir.walk(operand):
-                        p = match.index_parts(y) if y["k"] == "ArraySubscriptExpr" else None
-                        if p and ref_of(p[0]) == m:
-                            bb = match.binop(p[1], ("+",))
-                            idx = const_int(bb[2]) if bb else 0
-                    for l in labels_open[-1:]:
-                        table[l] = (idx, shift)
-        for c in range(1, 8):
-            if table.get(c) != (c - 1, 8 * (c - 1)):
-                bad.append(("case%d" % c, "case %d ORs byte %s shifted by %s, SipHash needs byte %d shifted by %d" % (c, table.get(c, (None, None))[0], table.get(c, (None, None))[1], c - 1, 8 * (c - 1)), sw[0]))
-        if order[:7] != [7, 6, 5, 4, 3, 2, 1]:
-            bad.append(("order", "cases must be ordered 7..1 to fall through", sw[0]))
-        # length byte
-        lb = [x for x in fn.nodes() if match.binop(x, ("=",)) and ir.ref_name(match.binop(x, ("=",))[1]) == "last7"]
-        okl = False
-        for x in lb:
-            sh = match.binop(match.binop(x, ("=",))[2], ("<<",))
-            if sh and const_int(sh[2]) == 56 and ref_of([y for y in ir.walk(sh[1]) if y["k"] == "DeclRefExpr"][0]) == length:
-                shnode = [y for y in ir.walk(match.binop(x, ("=",))[2]) if y["k"] == "BinaryOperator" and y.get("op") == "<<"][0]
-                okl = shnode.get("ty") in ("unsigned long", "unsigned long long")
-        if not okl:
-            bad.append(("length-byte", "the final word does not start from (len & 0xff) << 56 in 64-bit arithmetic", fn.body))
+        finals = {}
+        for n in range(0, 17):
+            sk = skel.Skel(fn, {m: M_BASE, length: n, fn.params[0]["did"]: 5000}, None, None,
+                           mem_default=lambda a_, n=n: ("M", a_ - M_BASE) if M_BASE <= a_ < M_BASE + n else (("OOB", a_ - M_BASE) if 0 <= a_ - M_BASE < 64 else None),
+                           max_iter=64)
+            sk.alg = bits_alg
+            try:
+                sk.run(kids(fn.body))
+            except skel.Return:
+                pass
+            finals[n] = sk.env
+        locals_ = [v for v in fn.nodes() if v["k"] == "VarDecl" and v.get("did") is not None and v["did"] not in (m, length)]
+
+        def hi(v):
+            return (v[1] if isinstance(v, tuple) and v and v[0] == "bits" else v if isinstance(v, int) and not isinstance(v, bool) else -1) >> 56
+        cand = [v for v in locals_ if all(hi(finals[n].get(v["did"])) == (n & 255) for n in range(1, 17))]
+        ck.require(len(cand) == 1, "%s: the final word (length byte << 56) not found among the locals" % fn.loc)
+        last = cand[0]
+        for n in range(0, 17):
+            blocks = n & ~7
+            want = ("bits", (n & 255) << 56, frozenset((8 * j, ("M", blocks + j)) for j in range(n - blocks)))
+            got = finals[n].get(last["did"])
+            if isinstance(got, int):
+                got = ("bits", got, frozenset())
+            if got != want:
+                def show(v):
+                    if not (isinstance(v, tuple) and v and v[0] == "bits"):
+                        return "not a combination of message bytes"
+                    return "length byte %#x, " % (v[1] >> 56) + ("bytes " + ", ".join("m[%s] << %d" % (l[1], sh) for sh, l in sorted(v[2])) if v[2] else "no bytes")
+                bad.append(("tail%d" % (n & 7), "for a message of %d bytes the final word is {%s}; SipHash needs {%s}" % (n, show(got), show(want)), last))
+                break
+        for y in fn.nodes():
+            if y["k"] == "BinaryOperator" and y.get("op") == "<<":
+                lhs = kids(y)[0]
+                from_bytes = any((z["k"] == "ArraySubscriptExpr" and "char" in (strip_casts(kids(z)[0]).get("ty") or "")) or
+                                 (z["k"] == "DeclRefExpr" and z["ref"]["id"] == length) for z in ir.walk(lhs))
+                if from_bytes and y.get("ty") not in ("unsigned long", "unsigned long long"):
+                    bad.append(("shift-width", "a message byte / the length is shifted in type `%s`: the shift is done in (signed) int, bytes >= 0x80 sign-extend "
+                                "into the upper half (or bits are lost)" % y.get("ty"), y))
         for sig, msg, node in bad[:4]:
             ck.violation("SIP-TAIL", fn.qname, "%s:%s" % (name, sig), msg, fn.nloc(node))
         if not bad:
-            ck.ok("SIP-TAIL", name, "cases 7..1 fall through, case c ORs byte c-1 shifted by 8(c-1) in 64-bit arithmetic; length byte << 56")
-        tabs[name] = table
+            ck.ok("SIP-TAIL", name, "lengths 0..16: final word == (len & 0xff) << 56 | tail byte j << 8j; byte shifts in 64-bit unsigned arithmetic")
     check_simd_alignment(ck, tu)
-    if tabs.get("siphash_plain") == tabs.get("siphash_sse2"):
-        ck.ok("SIP-TAIL", "plain vs sse2", "both implementations carry the same tail table", nontrivial=False)
-    else:
-        ck.violation("SIP-TAIL", "tlx::siphash_sse2", "twins", "the portable and the vectorised implementation assemble the tail differently", "tlx/siphash.hpp")
 
 
 ALIGNED_SIMD = {"_mm_load_si128": 16, "_mm_store_si128": 16, "_mm_load_pd": 16, "_mm_load_ps": 16, "_mm_store_pd": 16, "_mm_store_ps": 16,
@@ -717,9 +700,10 @@ def run(ck):
     check_siphash(ck)
     ck.floor("SIMD-ALIGNMENT", 2)
     ck.floor("PROCESS-CONSERVE", 4)
+    ck.floor("PROCESS-STREAM", 4)
     ck.floor("FINAL-THRESHOLDS", 4)
     ck.floor("HEX-FRONTENDS", 16)
     ck.floor("CONST-TABLES", 10)
     ck.floor("BOOLFN-TABLES", 12)
     ck.floor("ROT-SETS", 8)
-    ck.floor("SIP-TAIL", 3)
+    ck.floor("SIP-TAIL", 2)
